@@ -323,7 +323,21 @@ def run(ctx, rep):
             rep.ob("R19.5", "%s: `%s` passes a message kind first" % (fu.qual.split(".")[-1] if fu else "?", A.norm(c)[:50]),
                    ok, "kind folds to %r" % kind if ok else "first slot `%s` is not a MSG_* constant" % A.src(c.args[0]),
                    ctx.loc(c), kind="table")
-    rep.floor("R19.5", "message send sites with an explicit kind", n_sites, 3)
+    # messages encoded in place (not through a generic encoder): same layout
+    for nme, f in sorted(conn.methods.items()):
+        if nme in encoders:
+            continue
+        for d in A.find_calls(f.node, "brine.dump"):
+            if d.args and isinstance(d.args[0], ast.Tuple):
+                n_sites += 1
+                el = d.args[0].elts
+                kind = ctx.try_fold(el[0]) if el else None
+                prm = A.params(f.node)
+                ok = len(el) == 3 and kind in (1, 2, 3) and isinstance(el[1], ast.Name) and el[1].id in prm
+                rep.ob("R19.5", "Connection.%s: message encoded in place is (kind, seq, payload)" % nme, ok,
+                       "brine.dump((%s))" % ", ".join(A.src(e) for e in el) if ok else
+                       "the message tuple `%s` is not (MSG_* kind, seq, payload)" % A.src(d.args[0]), ctx.loc(d), kind="table")
+    rep.floor("R19.5", "message construction sites with an explicit kind", n_sites, 3)
     fa = ctx.func(K.CONN + "._async_request")
     for c in A.calls(fa.node):
         d = A.call_name(c) or ""
